@@ -22,6 +22,9 @@ CHECKS = {
  "C11": ("zcheck", "stateless model checking of ReplyStream with every yielded item held (DFS over chains x reply scripts x payload sizes x arrival chunkings); damage decided from the transport's read log, an allocator release log and a content comparison",
          "Same executions as C06 with reply sizes that do and do not force buffer growth; after every later item each held &str is checked: memory released since? written by a later transport read? content unchanged? Two genuine defects of the pinned tree are listed as known findings (call site ReplyStream, separate reads); any damage in another situation is reported.",
          "Trusted: the harness allocator moves a block on every growth (adversarial but legal). Bounded: chains <=3/4 calls, sizes {20,300} / {20,200,300,600}.", "4 C11"),
+ "C17": ("zcheck", "exhaustive enumeration of executions of the real Read/WriteConnection at every size up to limit+600 (library limit lowered to 4096 by hook) x arrival patterns / pending amounts, plus the production-limit cases with the library as shipped",
+         "Every inbound frame size x {one arrival, malformed, unterminated+EOF, unterminated+silent, every single cut}, every outbound message length x every amount of earlier enqueued data x {enqueue, send}: below the limit accepted and correct, above limit+step refused with BufferOverflow and nothing written, buffers never beyond limit+step.",
+         "Trusted: hook zlink_verif_small_buf only changes the constant. Sizes in [limit, limit+256] are left free. Single frames only (a burst of small frames coalescing beyond the limit is outside the statement).", "4 C17"),
 }
 
 NOT_YET = {
